@@ -74,6 +74,11 @@ func (node *tagMacroNode) call(ctx *ExecutionContext, args ...*Value) (*Value, e
 	var b bytes.Buffer
 	err := node.wrapper.Execute(macroCtx, &b)
 	if err != nil {
+		if err.Line <= 0 && err.Token == nil {
+			// an error without a position of its own is reported at the macro
+			// definition; name the file the definition is written in
+			err.Filename = node.position.Filename
+		}
 		return AsSafeValue(""), err.updateFromTokenIfNeeded(ctx.template, node.position)
 	}
 
